@@ -255,6 +255,7 @@ def gen_case(rng):
         phasing=phasing,
         hostile=rng.random() < 0.85,
         with_pq=rng.random() < 0.3,
+        mixed_sep=True,
         defined_phase_tags=rng.choice([None, ["PS"], ["HP"], ["PS", "HP", "PQ"]]),
         n_records=rng.randint(1, 25),
     )
